@@ -85,23 +85,43 @@ REAL = {
             "subq $8, %rsp", "movq %rcx, (%rdi)", "addq $8, %rdi", "movq (%rdi), %rbx"],
     "aarch64": ["ldr d1, [x1], #8", "ldr d2, [x1]", "fadd d3, d2, d1", "str d3, [x1, #8]",
                 "add x1, x1, #8", "ldr x2, [x1, #16]!", "mov x3, x1", "str d3, [x3]",
+                "fdiv v6.2d, v6.2d, v7.2d", "fdiv v8.4s, v8.4s, v7.4s",
                 "ldp d4, d5, [x1], #16", "fmla v1.2d, v2.2d, v3.2d", "subs x4, x4, #1",
                 "b.ne .L1", "str d1, [x1], #8", "sub x1, x1, #8", "fadd d1, d4, d5",
                 "incd x4", "tst x4, x2", "csel x2, x4, x3, ne"],
 }
 
 
+# instructions whose analysis leaves traces in the model / semantics objects if anything does
+# (pointer updates, store->load recurrences, one mnemonic in two vector shapes): kernels over
+# these get objects of their own for every rotation
+FRESH = {
+    "x86": ["movq %rcx, (%rdi)", "addq $8, %rdi", "movq (%rdi), %rbx", "incq %rax",
+            "movq %rax, 8(%rsp)", "movq 8(%rsp), %rdx", "subq $8, %rsp"],
+    "aarch64": ["ldr d2, [x1]", "fadd d3, d2, d1", "str d3, [x1, #8]", "add x1, x1, #8",
+                "subs x4, x4, #1", "b.ne .L1", "fdiv v6.2d, v6.2d, v7.2d",
+                "fdiv v8.4s, v8.4s, v7.4s"],
+}
+
+
 def _rotations_real(item):
-    isa, arch, idxs, flags = item
+    isa, arch, idxs, flags = item[:4]
+    fresh = len(item) > 4 and item[4]
     lines = [REAL[isa][i] for i in idxs]
     n = len(lines)
     out = {"bad": [], "n": 0, "sig": None}
     try:
-        mm, sem = _MODELS[arch]
         base = None
         for r in range(n):
             rot = lines[r:] + lines[:r]
             parser, kernel = dgfam.parsed_kernel(isa, rot)
+            if fresh:
+                # model and semantics objects of their own for every rotation: what one
+                # analysis leaves behind in them must not level out the difference between cuts
+                mm = drive.MachineModel(arch=arch)
+                sem = drive.ArchSemantics(mm)
+            else:
+                mm, sem = _MODELS[arch]
             sem.add_semantics(kernel)
             g = drive.KernelDG(kernel, parser, mm, sem, timeout=-1, flag_dependencies=flags)
             sig = _lcd_sig(kernel, g, r, n)
@@ -128,7 +148,11 @@ def _real_items(ctx, archs_x86, archs_a64):
         else:
             # the four-instruction shapes: store behind a write-back access behind its load
             ts += [t for t in itertools.product(rng[:6], repeat=4)]
+        fi = [REAL[isa].index(x) for x in FRESH[isa]]
+        fts = [t for L in (2, 3, 4) for t in itertools.permutations(fi, L)]
         for k, a in enumerate(archs):
+            if k == 0 or ctx.thorough:
+                items += [(isa, a, t, False, True) for t in fts]
             for t in (ts if k == 0 else ts[::5]):
                 if len(set(t)) < len(t):
                     continue   # repeated lines are legal but add nothing here
@@ -193,7 +217,8 @@ def run(ctx):
     rout = core.pmap(_rotations_real, core.rotate(ritems, ctx.seed))
     res.extra["real_isa_part_s"] = round(time.time() - t0, 1)
     res.extra["real_isa_kernels"] = len(ritems)
-    for (isa, arch, idxs, flags), o in rout:
+    for ritem, o in rout:
+        isa, arch, idxs, flags = ritem[:4]
         res.states += 1
         res.traces += o["n"]
         res.transitions += max(0, o["n"] - 1)
@@ -207,7 +232,7 @@ def run(ctx):
                  "kind": "exception" if r < 0 else "differs"},
                 "[%s on %s flags=%s] kernel %r: %s" % (isa, arch, flags, lines, what),
                 {"part": "real-isa", "isa": isa, "arch": arch, "idxs": list(idxs),
-                 "flags": flags, "kernel": lines, "what": what}))
+                 "flags": flags, "kernel": lines, "fresh": len(ritem) > 4, "what": what}))
     sitems = []
     max_lines = 10 ** 6 if ctx.thorough else 45
     for path, isa in c04.shipped_kernels():
@@ -280,7 +305,7 @@ def replay(ctx, payload):
         mm = drive.MachineModel(arch=r["arch"])
         _MODELS[r["arch"]] = (mm, drive.ArchSemantics(mm))
         idxs = tuple(REAL[r["isa"]].index(l) for l in r["kernel"])
-        _, o = _rotations_real((r["isa"], r["arch"], idxs, r["flags"]))
+        _, o = _rotations_real((r["isa"], r["arch"], idxs, r["flags"], bool(r.get("fresh"))))
     else:
         drive.stage_and_parse(ctx, [r["arch"], "isa/x86", "isa/aarch64"])
         mm = drive.MachineModel(arch=r["arch"])
